@@ -69,6 +69,33 @@ def hazName : Hazard → String
   | .powComplex => "pow-complex" | .powFloatOverflow => "pow-float-overflow" | .chrRange => "chr-range"
   | .surrogateEncode => "surrogate-encode" | .intDigitLimit => "int-digit-limit" | .strDigitLimit => "str-digit-limit"
 
+/-- the character data of the case (`"ucd"`: combining classes, full canonical decompositions, primary composites of
+    the code points that can occur while the strings of the case are normalised); absent: no data (ASCII-only case) -/
+def ucdOf (j : Json) : JR Ucd :=
+  match fieldOpt j "ucd" with
+  | none => pure Ucd.empty
+  | some u => do
+    let ccc ← (← arr (← field u "ccc")).mapM fun e => do
+      let a ← arr e
+      pure ((← nat (← nth a 0)), (← nat (← nth a 1)))
+    let dec ← (← arr (← field u "dec")).mapM fun e => do
+      let a ← arr e
+      pure ((← nat (← nth a 0)), (← nats (← nth a 1)))
+    let comp ← (← arr (← field u "comp")).mapM fun e => do
+      let a ← arr e
+      pure (((← nat (← nth a 0)), (← nat (← nth a 1))), (← nat (← nth a 2)))
+    pure ⟨ccc, dec, comp⟩
+
+/-- a value with every string in normal form (sets: duplicates that arise are dropped): the granularity at which
+    string values are compared with the library, strings being equal when their NFC forms are -/
+def normScalar (u : Ucd) : Scalar → Scalar
+  | .str cs => .str (u.nfc cs)
+  | s => s
+
+def normVal (u : Ucd) : Val → Val
+  | .sc s => .sc (normScalar u s)
+  | .set es => .set (dedup (es.map (normScalar u)))
+
 def outcomeJson : Ex.R Val → List (String × Json)
   | .ok v => [("v", valJson v)]
   | .error (.invalid k) => [("err", "invalid"), ("soft_kind", invName k)]
@@ -96,7 +123,7 @@ def roundTrips (e : Expr) : Bool :=
   (match parseTokens (toksFull e) with | some x => exprBeq x e | none => false)
 
 /-- header constants `<type> NAME = <expr>` evaluated in order; the first failure fails the definition -/
-def header (items : List Json) : JR (Ex.R Env) := do
+def header [StrNorm] (items : List Json) : JR (Ex.R Env) := do
   let mut env : Env := []
   for it in items do
     let a ← arr it
@@ -109,7 +136,7 @@ def header (items : List Json) : JR (Ex.R Env) := do
   return .ok env
 
 /-- the statement that carries the expression -/
-def statement (env : Env) (ctx : List Json) (e : Expr) : JR (Ex.R Val) := do
+def statement [StrNorm] (env : Env) (ctx : List Json) (e : Expr) : JR (Ex.R Val) := do
   match ← str (← nth ctx 0) with
   | "print" => pure ((eval env e).bind observePrint)
   | "assert" => pure ((eval env e).bind observeAssert)
@@ -118,7 +145,7 @@ def statement (env : Env) (ctx : List Json) (e : Expr) : JR (Ex.R Val) := do
   | "extent" => pure ((eval env e).bind observeExtent)
   | c => throw s!"bad context {c}"
 
-def evalCase (j : Json) : JR (Ex.R Val × Expr) := do
+def evalCaseN [StrNorm] (j : Json) : JR (Ex.R Val × Expr) := do
   let e ← tree (← field j "tree")
   let ctx ← arr (← field j "ctx")
   let hdr ← match fieldOpt j "env" with
@@ -127,6 +154,11 @@ def evalCase (j : Json) : JR (Ex.R Val × Expr) := do
   match hdr with
   | .error x => pure (.error x, e)
   | .ok env => pure (← statement env ctx e, e)
+
+/-- the case evaluated with string `==` / `!=` over the NFC algorithm of the model on the character data of the case -/
+def evalCase (j : Json) : JR (Ex.R Val × Expr) := do
+  let u ← ucdOf j
+  @evalCaseN ⟨u.nfc⟩ j
 
 /-- the rendered text of the case (the very characters the real library parses), lexed with the model's terminals
     and parsed with the model's PEG, gives the tree of the case -/
@@ -137,7 +169,11 @@ def charsOk (j : Json) (e : Expr) : Bool :=
 
 def handle (j : Json) : JR Json := do
   let (r, e) ← evalCase j
-  pure (Json.mkObj (outcomeJson r ++ [("rt", Json.bool (roundTrips e && charsOk j e)), ("soft_lx", Json.bool (charsOk j e))]))
+  let u ← ucdOf j
+  let vn : List (String × Json) := match r with
+    | .ok v => [("vn", valJson (normVal u v))]
+    | _ => []
+  pure (Json.mkObj (outcomeJson r ++ vn ++ [("rt", Json.bool (roundTrips e && charsOk j e)), ("soft_lx", Json.bool (charsOk j e))]))
 
 def nameJson : NameOutcome → Json
   | .formatError => "format-error"
